@@ -9,19 +9,19 @@ Core Lean only: this file is linked into the `pngmodel` driver.
 
 Implementation-shaped model of
 
-* the chunk *bodies* produced by `PixelDimensions` (encoder.rs:583-592), `ScaledFloat::encode_gama`
+* the chunk *bodies* produced by `PixelDimensions` (encoder.rs:599-608), `ScaledFloat::encode_gama`
   (common.rs:465-467), `SourceChromaticities::encode` (:493-517), `SrgbRenderingIntent::encode`
   (:551-553), `AnimationControl::encode` (:310-315), `FrameControl::encode` (:283-298),
-  `Writer::write_iccp_chunk` (encoder.rs:673-696), the raw PLTE / tRNS / eXIf blobs (:619-635) and —
+  `Writer::write_iccp_chunk` (encoder.rs:689-712), the raw PLTE / tRNS / eXIf blobs (:635-651) and —
   from `Model/Text.lean` — the three `EncodableTextChunk::encode` functions;
-* `Writer::encode_header` (encoder.rs:569-650) with its order of chunks and the special treatment of
-  sRGB (:594-617), preceded by the three checks of `Writer::init` (:543-566);
-* the frame-control setters of `Encoder` (:203-223, :341-409) and `Writer` (:914-1056) and the
-  `fcTL` emission of `write_image_data` (:834-860).
+* `Writer::encode_header` (encoder.rs:585-666) with its order of chunks and the special treatment of
+  sRGB (:610-633), preceded by the three checks of `Writer::init` (:559-582);
+* the frame-control setters of `Encoder` (:219-239, :357-425) and `Writer` (:945-1087) and the
+  `fcTL` emission of `write_image_data` (:865-891).
 
 A chunk is a pair (type, body); length field and CRC are property C12's business.
-`encoder::write_chunk` (encoder.rs:520-529) writes `data.len() as u32` without a check; only the
-callers that go through `Writer::write_chunk` (:658-667: IHDR, pHYs, iCCP, eXIf, PLTE, tRNS) refuse a
+`encoder::write_chunk` (encoder.rs:536-545) writes `data.len() as u32` without a check; only the
+callers that go through `Writer::write_chunk` (:674-683: IHDR, pHYs, iCCP, eXIf, PLTE, tRNS) refuse a
 body longer than `i32::MAX`.  A text chunk body of 2^32 bytes or more would get a truncated length
 field; this is outside what can be executed and is not modelled (the chunk list below carries the
 body itself).
@@ -118,12 +118,12 @@ instance (m : MetaConfig) : Decidable m.InRange := by unfold MetaConfig.InRange;
 
 /-! ## Chunk bodies -/
 
-/-- IHDR as `encode_header` writes it (encoder.rs:573-580): compression, filter and interlace
+/-- IHDR as `encode_header` writes it (encoder.rs:589-596): compression, filter and interlace
 methods are always 0 (scanlines are written progressively whatever `Info::interlaced` says) -/
 def encodeIhdr (w h depth color : Nat) : Bytes :=
   be32Bytes w ++ (be32Bytes h ++ [depth.toUInt8, color.toUInt8, 0, 0, 0])
 
-/-- pHYs (encoder.rs:583-592) -/
+/-- pHYs (encoder.rs:599-608) -/
 def encodePhys (p : PixelDims) : Bytes :=
   be32Bytes p.xppu ++ (be32Bytes p.yppu ++ [if p.meter then 1 else 0])
 
@@ -148,9 +148,9 @@ def encodeFctl (fc : FrameControl) : Bytes :=
   be32Bytes fc.seq ++ (be32Bytes fc.width ++ (be32Bytes fc.height ++ (be32Bytes fc.x ++ (be32Bytes fc.y ++
     (be16Bytes fc.delayNum ++ (be16Bytes fc.delayDen ++ [fc.dispose.toUInt8, fc.blend.toUInt8]))))))
 
-/-- iCCP: `write_iccp_chunk("_", profile)` (encoder.rs:615, 673-696): profile name `_`, its NUL
+/-- iCCP: `write_iccp_chunk("_", profile)` (encoder.rs:631, 689-712): profile name `_`, its NUL
 terminator, compression method 0, then the deflated profile.  The name is a constant that passes the
-Latin-1 and size checks of :674-677; `LimitsExceeded` (:679-688) needs a `usize` overflow or a failed
+Latin-1 and size checks of :690-693; `LimitsExceeded` (:695-704) needs a `usize` overflow or a failed
 allocation and is not reachable for a profile that fits in memory. -/
 def encodeIccp (z : ZCodec) (profile : Bytes) : Bytes := 0x5F :: 0 :: 0 :: z.compress profile
 
@@ -158,16 +158,16 @@ def encodeIccp (z : ZCodec) (profile : Bytes) : Bytes := 0x5F :: 0 :: 0 :: z.com
 
 /-- the `EncodingError`s `write_header` can return apart from I/O errors of the sink -/
 inductive EncErr
-  | zeroWidth | zeroHeight | invalidColorCombination       -- `Writer::init` (encoder.rs:544-561)
-  | writtenTooMuch                                          -- `Writer::write_chunk` (:661-664)
+  | zeroWidth | zeroHeight | invalidColorCombination       -- `Writer::init` (encoder.rs:560-577)
+  | writtenTooMuch                                          -- `Writer::write_chunk` (:677-680)
   | text (e : TextEncErr)                                   -- `BadTextEncoding` (:134-140)
   | notAnimated | outOfBounds | zeroFrames                  -- frame setters
 deriving DecidableEq, Repr
 
-/-- `i32::MAX`, the longest body `Writer::write_chunk` accepts (encoder.rs:661) -/
+/-- `i32::MAX`, the longest body `Writer::write_chunk` accepts (encoder.rs:677) -/
 def maxChunkLen : Nat := 2147483647
 
-/-- `Writer::write_chunk` (encoder.rs:658-667) -/
+/-- `Writer::write_chunk` (encoder.rs:674-683) -/
 def checkedChunk (t : ChunkType) (body : Bytes) : Except EncErr (List Chunk) :=
   if body.length > maxChunkLen then .error .writtenTooMuch else .ok [(t, body)]
 
@@ -176,7 +176,7 @@ def optChunk (t : ChunkType) : Option Bytes → Except EncErr (List Chunk)
   | none => .ok []
   | some b => checkedChunk t b
 
-/-- `Writer::write_text_chunk` (encoder.rs:669-671) = `EncodableTextChunk::encode`: either one whole
+/-- `Writer::write_text_chunk` (encoder.rs:685-687) = `EncodableTextChunk::encode`: either one whole
 chunk or an error and nothing (the three `encode` functions build the body in a `Vec` and call
 `encoder::write_chunk` last) -/
 def textStep (t : ChunkType) (r : Except TextEncErr Bytes) : Except EncErr (List Chunk) :=
@@ -201,7 +201,7 @@ def writeTextChunk (sink : List Chunk) (step : Except EncErr (List Chunk)) : Lis
 
 /-! ## `encode_header` -/
 
-/-- the colour-space chunks (encoder.rs:594-617).  With sRGB: the sRGB chunk, then gAMA / cHRM only
+/-- the colour-space chunks (encoder.rs:610-633).  With sRGB: the sRGB chunk, then gAMA / cHRM only
 when the configured value *equals* the substitute; the ICC profile is not written.  Without: gAMA,
 cHRM, iCCP as configured. -/
 def colourSteps (z : ZCodec) (m : MetaConfig) : List (Except EncErr (List Chunk)) :=
@@ -215,7 +215,7 @@ def colourSteps (z : ZCodec) (m : MetaConfig) : List (Except EncErr (List Chunk)
      .ok (m.chroma.map fun c => (Framing.cHRM, encodeChrm c)).toList,
      optChunk Framing.iCCP (m.icc.map (encodeIccp z))]
 
-/-- the steps of `encode_header` after the signature, in order (encoder.rs:572-647) -/
+/-- the steps of `encode_header` after the signature, in order (encoder.rs:588-663) -/
 def headerSteps (z : ZCodec) (m : MetaConfig) : List (Except EncErr (List Chunk)) :=
   [checkedChunk Framing.IHDR (encodeIhdr m.width m.height m.depth m.color),
    optChunk Framing.pHYs (m.pixelDims.map encodePhys)]
@@ -226,7 +226,7 @@ def headerSteps (z : ZCodec) (m : MetaConfig) : List (Except EncErr (List Chunk)
    optChunk Framing.tRNS m.trns]
   ++ m.tEXt.map tEXtStep ++ m.zTXt.map (zTXtStep z) ++ m.iTXt.map (iTXtStep z)
 
-/-- `Writer::init` (encoder.rs:543-566): three checks, then `encode_header`.  First component: the
+/-- `Writer::init` (encoder.rs:559-582): three checks, then `encode_header`.  First component: the
 chunks that reached the sink (all of them on success, those before the failing one otherwise). -/
 def writeHeader (z : ZCodec) (m : MetaConfig) : List Chunk × Except EncErr Unit :=
   if m.width = 0 then ([], .error .zeroWidth)
@@ -248,7 +248,7 @@ def FcInRange (fc : FrameControl) : Prop :=
   fc.dispose ≤ 2 ∧ fc.blend ≤ 1
 instance (fc : FrameControl) : Decidable (FcInRange fc) := by unfold FcInRange; infer_instance
 
-/-- `Encoder::set_animated` (encoder.rs:203-223): `FrameControl::default()` (common.rs:258-272) with
+/-- `Encoder::set_animated` (encoder.rs:219-239): `FrameControl::default()` (common.rs:258-272) with
 the canvas size -/
 def initialFc (w h : Nat) : FrameControl :=
   { seq := 0, width := w, height := h, x := 0, y := 0, delayNum := 1, delayDen := 30, dispose := 0, blend := 0 }
@@ -260,13 +260,13 @@ def setAnimated (w h frames plays : Nat) : Except EncErr ((Nat × Nat) × FrameC
 /-- the per-frame setters of `Writer` (those of `Encoder` are the same three for delay, blend,
 dispose) -/
 inductive FcOp
-  | dimension (w h : Nat)        -- `set_frame_dimension` (encoder.rs:936-953)
-  | position (x y : Nat)         -- `set_frame_position` (:965-978)
-  | resetDimension               -- `reset_frame_dimension` (:989-997)
-  | resetPosition                -- `reset_frame_position` (:1006-1014)
-  | delay (num den : Nat)        -- `set_frame_delay` (:914-922)
-  | blend (op : Nat)             -- `set_blend_op` (:1029-1036)
-  | dispose (op : Nat)           -- `set_dispose_op` (:1049-1056)
+  | dimension (w h : Nat)        -- `set_frame_dimension` (encoder.rs:967-984)
+  | position (x y : Nat)         -- `set_frame_position` (:996-1009)
+  | resetDimension               -- `reset_frame_dimension` (:1020-1028)
+  | resetPosition                -- `reset_frame_position` (:1037-1045)
+  | delay (num den : Nat)        -- `set_frame_delay` (:945-953)
+  | blend (op : Nat)             -- `set_blend_op` (:1060-1067)
+  | dispose (op : Nat)           -- `set_dispose_op` (:1080-1087)
 deriving DecidableEq, Repr
 
 /-- arguments are values of their Rust types -/
@@ -319,21 +319,30 @@ def FcInv (cw ch : Nat) (fc : FrameControl) : Prop :=
 instance (cw ch : Nat) (fc : FrameControl) : Decidable (FcInv cw ch fc) := by unfold FcInv; infer_instance
 
 /-- what `write_image_data` emits before the frame's data when a frame control is pending and the
-image is not a skipped default image (encoder.rs:841-844), and the frame control afterwards:
+image is not a skipped default image (encoder.rs:872-875), and the frame control afterwards:
 `sequence_number.wrapping_add(1)`; `dataChunks` further increments for the frame's fdAT chunks
-(:852-857; none for the IDAT frame) -/
+(:883-888; none for the IDAT frame) -/
 def emitFctl (fc : FrameControl) (dataChunks : Nat) : Chunk × FrameControl :=
   ((Framing.fcTL, encodeFctl fc), { fc with seq := (fc.seq + 1 + dataChunks) % 4294967296 })
 
 /-! ## The decoder side, chunk by chunk, and the documented accessors -/
 
+/-- **THE SWITCH for the zero-length-chunk repair.**  `false` = today's `StreamingDecoder`: a chunk
+whose length field is 0 goes from the type field straight to the CRC (`ReadChunkData` with nothing
+remaining, stream.rs:745-748) and is never handed to `parse_chunk`.  `true` = the decoder with the
+planned repair (`_ if length == 0 => ParseChunkData` in `parse_u32`): an empty chunk is parsed like any
+other.  Every theorem of `Proofs/EncodeMeta.lean` and `Props/C17.lean` is proved without unfolding
+this definition, i.e. for both values; set it to `true` when the repair lands (nothing else in the
+Lean sources has to change). -/
+def parseEmptyChunks : Bool := false
+
 /-- What `StreamingDecoder` does with one complete chunk that is not a data chunk: the body is
-collected in `raw_bytes` and handed to `parse_chunk` — unless it is empty, in which case
-`ReadChunkData` goes straight to the CRC and the chunk is never parsed (stream.rs:745-748).
+collected in `raw_bytes` and handed to `parse_chunk` — unless it is empty and empty chunks are not
+parsed (`parseEmptyChunks`).
 (The growth of `raw_bytes` beyond 32 KiB is charged to `Limits` by `reserve_current_chunk`; that
 accounting belongs to the byte-level machine and to property C06 and is not repeated here.) -/
 def feedChunk (cfg : Cfg) (d : Dec) (c : Chunk) : Except Err Dec :=
-  if c.2.isEmpty then .ok d
+  if c.2.isEmpty && !parseEmptyChunks then .ok d
   else match parseChunk cfg { d with raw := c.2 } c.1 with
     | .ok (_, d') => .ok d'
     | .error e => .error e
@@ -386,14 +395,17 @@ def trnsTaken (color : Nat) (paletteSeen : Bool) (v : Bytes) : Bool :=
   else false
 
 /-- what `Info::trns` holds after a tRNS chunk with body `o` was written (nothing for an empty
-chunk, which is never parsed, and for a chunk that is skipped) -/
+chunk when empty chunks are not parsed, and for a chunk that is skipped because it does not apply) -/
 def trnsRead (color depth : Nat) (paletteSeen : Bool) : Option Bytes → Option Bytes
   | none => none
-  | some v => if v.isEmpty then none else if trnsTaken color paletteSeen v then some (trnsStored color depth v) else none
+  | some v =>
+    if v.isEmpty && !parseEmptyChunks then none
+    else if trnsTaken color paletteSeen v then some (trnsStored color depth v) else none
 
-/-- a blob written as a chunk of length zero is not seen by the decoder -/
+/-- a blob written as a chunk of length zero is not seen by the decoder unless empty chunks are
+parsed -/
 def nonEmpty : Option Bytes → Option Bytes
-  | some [] => none
+  | some [] => if parseEmptyChunks then some [] else none
   | o => o
 
 /-- the codec used by a `Cfg` is the one the encoder model compresses with -/
@@ -449,8 +461,8 @@ def MetaConfig.budget (z : ZCodec) (m : MetaConfig) : Nat :=
 
 /-- the chunk object the decoder builds from what `ITXtChunk::encode` wrote: the compressed state
 when the flag is set; the same chunk for a plain text; the inflated text for a compressed payload
-written with the flag cleared (when that payload inflates to UTF-8 — otherwise the decoder refuses
-the chunk and this value is not used) -/
+written with the flag cleared (`encode` accepts that only when the payload inflates to UTF-8; the
+other arms are never reached for an accepted chunk) -/
 def _root_.Png.ITXt.readBack (z : ZCodec) (c : ITXt) : ITXt :=
   if c.compressed then (c.compress z).1
   else match c.text with
@@ -459,10 +471,6 @@ def _root_.Png.ITXt.readBack (z : ZCodec) (c : ITXt) : ITXt :=
       match z.decompress v with
       | some raw => (match utf8Decode raw with | some s => { c with text := .uncompressed s } | none => c)
       | none => c
-
-/-- does `get_text` of the chunk succeed?  It fails exactly for a `Compressed` payload that does not
-inflate or does not inflate to valid UTF-8 — a chunk that holds no text at all. -/
-def _root_.Png.ITXt.HasText (z : ZCodec) (c : ITXt) : Prop := ∃ s, c.getText z = .ok s
 
 /-- `Info::gama_chunk` after decoding: with sRGB the chunk exists only for the substitute value -/
 def gamaWritten (m : MetaConfig) : Option Nat :=
@@ -476,7 +484,7 @@ def chrmWritten (m : MetaConfig) : Option (List Nat) :=
   | some _ => if m.chroma = some substituteChroma then some substituteChroma.toList else none
   | none => m.chroma.map Chromaticities.toList
 
-/-- `Info::icc_profile` after decoding: not written when sRGB is set (encoder.rs:595-617) -/
+/-- `Info::icc_profile` after decoding: not written when sRGB is set (encoder.rs:611-633) -/
 def iccWritten (m : MetaConfig) : Option Bytes :=
   match m.srgb with
   | some _ => none
